@@ -79,6 +79,48 @@ def desc_record(desc: Any) -> Any:
 # --------------------------------------------------------------------------- world
 
 
+def _ep_expect_2003(cur: Any, sql: str, problems: list[str], tag: str) -> None:
+    try:
+        cur.execute(sql)
+        problems.append(f"{tag}:succeeded")
+    except BaseException as e:  # noqa: BLE001
+        if type(e).__name__ != "ProgrammingError" or getattr(e, "errno", None) != 2003 or getattr(e, "sqlstate", None) != "42S02":
+            problems.append(f"{tag}:{type(e).__name__}/{getattr(e, 'errno', None)}")
+
+
+def ep_stale_schema_after_use_database(sim: Any) -> list[str]:
+    """USE DATABASE moves away from the current schema; USE SCHEMA <old name> must then be judged in the NEW database."""
+    from fakesnow.instance import FakeSnow
+
+    fs = FakeSnow()
+    problems: list[str] = []
+    a = fs.connect(database="EP1", schema="ONLY1")
+    fs.connect(database="EP2", schema="OTHER")
+    cur = a.cursor()
+    cur.execute("USE DATABASE EP2")
+    _ep_expect_2003(cur, "USE SCHEMA ONLY1", problems, "use-schema-unqualified")
+    _ep_expect_2003(cur, "USE SCHEMA EP2.ONLY1", problems, "use-schema-qualified")
+    return problems
+
+
+def ep_use_schema_after_foreign_drop(sim: Any) -> list[str]:
+    """Another connection dropped the session's current schema: USE SCHEMA of that name refers to something missing."""
+    from fakesnow.instance import FakeSnow
+
+    fs = FakeSnow()
+    problems: list[str] = []
+    a = fs.connect(database="EP1", schema="GONE")
+    b = fs.connect(database="EP1", schema="KEEP")
+    b.cursor().execute("DROP SCHEMA EP1.GONE")
+    cur = a.cursor()
+    _ep_expect_2003(cur, "USE SCHEMA GONE", problems, "use-schema-unqualified")
+    _ep_expect_2003(cur, "USE SCHEMA EP1.GONE", problems, "use-schema-qualified")
+    return problems
+
+
+EPISODES = {"stale-schema-after-use-database": ep_stale_schema_after_use_database, "use-schema-after-foreign-drop": ep_use_schema_after_foreign_drop}
+
+
 class World:
     def __init__(self, sim: core.Sim, **fs_opts: Any) -> None:
         from fakesnow.instance import FakeSnow
@@ -163,6 +205,9 @@ class World:
                 except BaseException as e:  # noqa: BLE001
                     out["desc_exc"] = exc_record(e)
             return out
+        if k == "episode":
+            # a self-contained scenario on a fresh instance of its own (it shares nothing with the modelled sessions)
+            return {"ok": True, "problems": EPISODES[op["name"]](self.sim)}
         if k == "executemany":
             cur = self.cursor(sid, op.get("cur", 0))
             cur.executemany(op["sql"], op["seqparams"])
